@@ -21,6 +21,27 @@ def beqFields (a b : List (String × PyVal)) : Bool :=
 
 def beqJFields (a b : List (String × Json)) : Bool := Json.beqO a b
 
+/-! ## hypotheses shared by the C15 / C16 statements -/
+
+/-- "naive datetime values for Date parameters": a `dt.date` held by a Date parameter
+is outside the C15 statement (it is accepted, and comes back as a datetime). -/
+def inStatement (c : PCfg) (v : PyVal) : Bool :=
+  match c, v with
+  | .date, .date .. => false
+  | _, _ => true
+
+/-- what JSON can carry: elements of an untyped Tuple / List / Dict / Selector value are
+JSON-native (no tuple, no date, string keys). -/
+def nativeElems (c : PCfg) (v : PyVal) : Bool :=
+  match c, v with
+  | .tuple _, .tuple l => PyVal.jsonNativeL l
+  | .list .., v => v.jsonNative
+  | .dict, v => v.jsonNative
+  | .selector _, v => v.jsonNative
+  | .listSelector _, v => v.jsonNative
+  | .classSelector _, v => v.jsonNative
+  | _, _ => true
+
 /-! ## C15 -/
 
 structure Obs15 where
@@ -51,12 +72,6 @@ def applicable15 (st : List (Param × PyVal)) : Bool :=
     v.finite && (match p.cfg, v with
                  | .date, .date .. => false
                  | _, _ => true)
-
-def modelRebuild (ps : List Param) (l : List (String × PyVal)) : Res (List (String × PyVal)) :=
-  -- `Cls(**kw)`: every keyword is validated by its Parameter; then the values are read back
-  if l.all (fun (n, v) => match findParam ps n with | some p => p.validB v | none => false) then
-    .ok (ps.filterMap fun p => (l.find? (fun x => x.1 == p.name)))
-  else .error "rejected"
 
 def perValueModel : List (Param × PyVal) → List (String × Res Json × Res PyVal)
   | [] => []
